@@ -175,8 +175,8 @@ def run(index: RepoIndex, rep) -> None:
                   f'the position is set to `{e.value}`, not to the tentative next position of '
                   f'the current pose `{NEXT}`', 'stored value')
     guards = [e.guard for e in pos_stores]
-    worlds = m.worlds(guards, lambda w: (ev.holds(_f(f'A.is_move()'), w),
-                                         ev.holds(_f(f'S.grid.area.contains({NEXT})'), w)))
+    worlds = m.worlds(guards, touch=[_f('A.is_move()'), _f(f'S.grid.area.contains({NEXT})'),
+                                     _f(f'{cell(NEXT)}.blocks_movement')])
     bad = None
     n = 0
     for w in worlds:
@@ -231,7 +231,7 @@ def run(index: RepoIndex, rep) -> None:
                   f'the heading is updated with `{e.value}`, not composed with the turn table '
                   f'entry of the action', 'heading update')
     guards = [e.guard for e in ori]
-    worlds = m.worlds(guards)
+    worlds = m.worlds(guards, touch=[_f('A.is_turn()')])
     bad = None
     for w in worlds:
         fired = any(ev.holds(g, w) for g in guards)
